@@ -2,10 +2,60 @@
 
 package kcp
 
-import "testing"
+import (
+	"testing"
+	"testing/synctest"
+)
 
-// placeholders until the session engine is in place
-func c01SessionPart(t *testing.T, rec *vrec, caseIdx *int64) {}
+// session-level part of C01: real UDPSession pairs over simnet, both
+// directions at once, across the configuration matrix and fate profiles.
+func c01SessionPart(t *testing.T, rec *vrec, caseIdx *int64) {
+	env := rec.env
+	n := env.pickN(160, 4000)
+	for q := 0; q < n; q++ {
+		idx := *caseIdx
+		*caseIdx++
+		if !env.mine(idx) {
+			continue
+		}
+		rng := rec.seed(uint64(idx), 101)
+		sc := genSessScenario(rng, idx, "session")
+		// covering sample: every cipher and every FEC class at least once
+		sc.Link.Cipher = cipherNames[q%len(cipherNames)]
+		for _, c := range []*sessCfg{&sc.CfgC, &sc.CfgS} {
+			if c.Mtu != 0 && c.Mtu < sc.Link.overhead()+IKCP_OVERHEAD+30 {
+				c.Mtu = 0
+			}
+		}
+		rec.beginCase(sc)
+		synctest.Test(t, func(t *testing.T) {
+			res := runSessScenario(t, rec, &sc, rng, nil)
+			res.tally(rec)
+			rec.eval(1)
+			if !res.completed {
+				d := ""
+				for _, x := range res.xs {
+					d += x.progress() + " "
+				}
+				if res.client != nil {
+					d += "client: " + sessProgress(res.client)
+				}
+				if res.server != nil {
+					d += " server: " + sessProgress(res.server)
+				}
+				rec.violation("C02 transfer did not complete within the virtual-time limit", d, sc)
+			}
+			if res.nontrivial {
+				rec.nontrivial(hashAny(sc))
+			}
+			if res.fecRecovered > 0 {
+				rec.count("session_scenarios_with_fec_recovery", 1)
+			}
+		})
+		rec.sample("session", 3, sessBrief(&sc))
+	}
+}
+
 func c04SessionPart(t *testing.T, rec *vrec, caseIdx *int64) {}
 func c03SessionPart(t *testing.T, rec *vrec, caseIdx *int64) {}
 func c18SessionPart(t *testing.T, rec *vrec, caseIdx *int64) {}
